@@ -122,6 +122,15 @@ PROPS = {
         "trusted_base": ["JSON (serde_json + the serde derives of CoreDocument / IotaDocumentMetadata) is a parameter: any codec with dec (enc x) = some x; tied by the round-trip oracle and by passing the decoder's verdict as facts", "DIDs are abstract numbers, isIota is a parameter (IotaDID::check_validity is C17's model)", "the document part is the C04 model plus controllers"],
         "assumptions": ["documents that themselves mention the reserved placeholder identifier are excluded by the statement (modelled and compared, but outside the theorems and the oracle)"],
     },
+    "C07": {
+        "translate": True,
+        "gens": ["C13", "C07"],
+        "diff_is_violation": ["dec", "pdec"],
+        "trivial": ["bad-request"],
+        "rule": "streams: (1) corpus; (2) enc: credentials over 8 optional-member combinations (status, schema, evidence, terms of use, refresh service, proof, nonTransferable true/false, extra properties, subject properties, multiple types/contexts) x 4 issuer forms (URL, object with properties) x presence of id / expiration / subject id / custom claims, timestamps drawn from the boundary set {0000-01-01, +1s, -1, 0, 1, 2010, 2030, 9999-12-31 -1s, 9999-12-31}, and all 81 issuance x expiration boundary pairs: the claims set printed member by member, then signed (toy scheme behind JwsVerifier), passed through JwtCredentialValidator::verify_signature and compared with the original; (3) dec: every combination of {vc.id, vc.issuer, vc.issuanceDate, vc.expirationDate, vc.credentialSubject.id} absent / equal / different x {jti, sub, exp} absent / present (1944 claims sets); iat x nbf over the boundary set and six out-of-range values incl. i64::MIN/MAX, each alone and together, with and without vc.issuanceDate; exp over the same set x vc.expirationDate; 1500 (20000) random claims sets; (4) penc / pdec: the same for presentations (4 optional-member combinations x presence of id / expiry / issuance / audience / custom claims; vp.id and vp.holder absent / equal / different x out-of-range exp / nbf / iat). Implementation-side oracle on enc / penc: the credential (presentation, expiry, issuance, audience, custom claims) returned by the validator == the one encoded. Non-trivial = not bad-request; distinct request lines.",
+        "trusted_base": ["URLs are abstract numbers; everything the conversion copies verbatim is an opaque value (its preservation is checked by the implementation-side oracle on the JSON, not proved)", "serde glue of CredentialJwtClaims / InnerCredential (flatten, skip_serializing_if, Cow) by correspondence", "Timestamp::from_unix is the C13 model (regenerated year bounds)", "the signature scheme is a parameter (toy MAC behind the JwsVerifier hook)"],
+        "assumptions": ["credentials whose extra properties or subject properties reuse a reserved member name (id, issuer, issuanceDate, expirationDate) are outside the statement: such a credential has no unambiguous JSON form of its own", "an absent custom-claims object reads back as an empty object: not counted as a difference"],
+    },
     "C18": {
         "translate": True,
         "diff_is_violation": False,
